@@ -115,6 +115,23 @@ func (w *World) registerHTTPEffects() {
 		}
 		return nil
 	}
+	// (*http.Cookie).String: name=value plus an attribute string whose length is
+	// a function of the attributes (valid for values that need no quoting)
+	I["(*net/http.Cookie).String"] = func(e *Exec, fn *ssa.Function, a []Value) Value {
+		cp := a[0].(*Pointer)
+		if isNilPtr(cp) {
+			return mkStr("")
+		}
+		get := func(f string) Value { return e.load(e.structField(cp, f)) }
+		name, val := get("Name").(*Term), get("Value").(*Term)
+		key := "cookieattrs"
+		for _, f := range []string{"Path", "Domain", "MaxAge", "Secure", "HttpOnly", "SameSite"} {
+			key += "|" + describe(get(f))
+		}
+		attrs, _ := e.memoFresh(key, "cookieattrs", SStr)
+		return mkConcat(name, mkStr("="), val, attrs)
+	}
+	// verifCookieAttrLen(c) = len(c.String()) - len(c.Name) - 1 - len(c.Value)
 	// verifSetCookies(h http.Header) []*http.Cookie : the cookies set on a response
 	I["@verifSetCookies"] = func(e *Exec, fn *ssa.Function, a []Value) Value {
 		m := a[0].(*MapVal)
